@@ -19,6 +19,7 @@ from .docbase import Diff, Session, Unresolvable, parser, print_model, text_of
 from . import docops
 from . import docexec
 from . import docfaults
+from . import findings
 
 models = I.models
 Violation = core.Violation
@@ -294,6 +295,15 @@ class DocSim(core.Engine):
         V = W.check_tree(sess.root, -1, standalone=True) + W.check_ownership(sess.root, -1) + self.check_stores(sess, -1, set())
         if not V:
             V = self.check_initial(sess)
+            # a listed finding about the start state does not corrupt anything: note it and go on
+            kept = []
+            for v in V:
+                fid = findings.match(v, sess, None)
+                if fid:
+                    res.known_hits.append(fid)
+                else:
+                    kept.append(v)
+            V = kept
         if V:
             res.violations = V
             return res
@@ -408,6 +418,16 @@ class DocSim(core.Engine):
             V.extend(self.iso_check(sess, snap, step, eff.touched, what))
         # prune dead bookkeeping
         sess.recent = [r for r in sess.recent[-6:] if live(r)]
+        if eff.wrapper_replaced is not None:
+            # handles onto the replaced wrapper (or views built on it) no longer denote the field: not judged
+            o, raw_name = eff.wrapper_replaced
+            for k, h in enumerate(sess.handles):
+                if h is not None and h['owner'] is o:
+                    mm = I.members_of(o)[h['member']]
+                    base = h['member'] if mm.kind in ('raw_repeated', 'raw_repeated_comments') else docops.view_filter(h['member'])[0]
+                    if base == raw_name:
+                        sess.handles[k] = None
+                        sess.stats['handle_dropped_wrapper_replaced'] += 1
         if not V:
             V.extend(self.check_stores(sess, step, eff.touched))
         if not V:
@@ -429,6 +449,11 @@ class DocSim(core.Engine):
             V.extend(self.check_reparse(sess, step, eff))
         if not V and S is not None and eff.outcome == 'ok':
             V.extend(self.eq_check(sess, S, step, eff))
+        if V:
+            fids = [findings.match(v, sess, op) for v in V]
+            if all(fids):
+                eff.known = fids[0]
+                V = []
         return V, eff
 
     # -- Engine interface ---------------------------------------------------------
